@@ -8,6 +8,10 @@
 (*                it is refused exactly at the goal (worlds are strongly        *)
 (*                connected, so the goal is always reachable)                   *)
 (*   UpdateWorld  flips the level of one or two edges                           *)
+(*   MoveTo(n)    "moves to n in the world graph": here' = n.  The robot follows   *)
+(*                its plan: n is the node j optimal edges ahead (j = 0: it stays,  *)
+(*                Ahead); nothing else changes.  The planner is not told a cost,   *)
+(*                so the world and its distances are the same before and after.    *)
 (* After every action Path() must be a chain of optimal edges from here to the  *)
 (* goal whose weight is the true distance in the current world.  The module     *)
 (* says nothing about g/rhs/keys: any correct planner refines it.               *)
@@ -44,6 +48,21 @@
 (* stays nondeterministic; TLC explores every behaviour and prints every          *)
 (* transition, and the harness requires the real planner's run to be a path of    *)
 (* that state graph.                                                              *)
+(*                                                                              *)
+(* How the robot moves (constant Moves).  "step": by Step only.  "move": every   *)
+(* epoch (the moves between two UpdateWorld calls) is MoveTo^a Step^b with a     *)
+(* pseudo-random a, each MoveTo 0, 1 or 2 optimal edges ahead.  "mixed": every    *)
+(* move is a Step or a MoveTo by a pseudo-random rule, so that a MoveTo may       *)
+(* follow a Step inside one epoch.  The specification makes no difference        *)
+(* between the three: where the robot stands is all that matters for what Path() *)
+(* and Step() must answer.  (The planner of the unchanged tree does make one:    *)
+(* see C13.py, stage "MoveTo after Step".)                                        *)
+(* Tables role: the scripts of the harness move the same way - a script is        *)
+(* plan -> moves (Step / MoveTo along Path() / MoveTo to any node followed at     *)
+(* once by the update) -> UpdateWorld(change) -> Path -> moves to the goal, and   *)
+(* every answer is judged by look-up in the printed tables: MoveTo(n) leaves the  *)
+(* robot at n (Here), Path() from n is a chain of optimal edges of the current    *)
+(* world of the weight d[n][goal], Step is refused exactly at the goal.           *)
 EXTENDS PathDefs, Json
 
 CONSTANTS Family,     \* "small": N nodes, pseudo-random edge set;  "grid": GR x GC 4-neighbour grid;
@@ -54,6 +73,7 @@ CONSTANTS Family,     \* "small": N nodes, pseudo-random edge set;  "grid": GR x
           Mode,       \* "tables" | "machine"
           Seed, NSamples,
           Rounds,     \* machine: number of UpdateWorld rounds per behaviour
+          Moves,      \* machine: "step" | "move" | "mixed" (how the robot moves, see above)
           Emit
 
 VARIABLES idx,        \* which pseudo-random world
@@ -63,8 +83,9 @@ VARIABLES idx,        \* which pseudo-random world
           here, goal,
           i,          \* number of actions so far
           round,      \* number of updates so far
-          left        \* steps still to take before the next update
-vars == <<idx, wes, wbase, lvl, here, goal, i, round, left>>
+          left,       \* moves still to make before the next update
+          mleft       \* Moves = "move": how many of them are MoveTo calls (they come first)
+vars == <<idx, wes, wbase, lvl, here, goal, i, round, left, mleft>>
 
 (****************************** pseudo-random ******************************)
 Hash(a, b, c) == (a * 1009 + (b % 1000) * 10007 + c * 101 + (a % 89) * (c % 83) * 37 + 12345) % 10039
@@ -170,7 +191,13 @@ Deliberate(es, c, lv, dg, from, t, salt) ==
     IN IF up = {} /\ dn = {} THEN {any}
        ELSE (IF up = {} THEN {} ELSE {Pick(up, r1)}) \cup (IF dn = {} THEN {} ELSE {Pick(dn, r2)})
 
-StepsBefore(k, r) == 1 + Rnd(k, 900 + r, 2)
+StepsBefore(k, r) == 1 + Rnd(k, 900 + r, IF Moves = "step" THEN 2 ELSE 3)
+\* Moves = "move": the number of MoveTo calls at the start of an epoch of m moves
+MoveTos(k, r, m) == IF Moves = "move" THEN Rnd(k, 1100 + r, m + 1) ELSE 0
+
+\* the nodes j optimal edges ahead of v (the walk ends at the goal, which has no optimal successor)
+RECURSIVE Ahead(_, _, _)
+Ahead(o, v, j) == IF j = 0 \/ o[v] = {} THEN {v} ELSE UNION {Ahead(o, u, j - 1) : u \in o[v]}
 
 ChangeRec(es, base, lv, S) == {<<es[j][1], es[j][2], base[j] + Delta * lv[j]>> : j \in S}
 StateRec(lv, h, g, ii) == [i |-> ii, here |-> h, lv |-> lv]
@@ -189,18 +216,35 @@ InitMachine ==
                IN Pick(far, Rnd(idx, 302, 9949))
     /\ i = 0 /\ round = 0
     /\ left = StepsBefore(idx, 0)
+    /\ mleft = MoveTos(idx, 0, left)
     /\ Emit => PrintT(ToJson([k |-> "init", idx |-> idx, n |-> NN, goal |-> goal,
                    e |-> {<<ES[j][1], ES[j][2], CUR[j]>> : j \in 1 .. Len(ES)},
                    h |-> HTable(ES, BASE), s |-> StateRec(lvl, here, goal, 0),
                    tab |-> Tables(ES, CUR, goal)]))
 
-Step == /\ here # goal /\ left > 0
+\* the kind of the next move: "s" Step, "m" MoveTo;  how far ahead a MoveTo goes (0, 1 or 2 edges)
+Kind == IF Moves = "move" THEN (IF mleft > 0 THEN "m" ELSE "s")
+        ELSE IF Moves = "mixed" THEN (IF Rnd(idx, 1300 + i, 2) = 1 THEN "m" ELSE "s")
+        ELSE "s"
+JAhead == LET r == Rnd(idx, 1200 + i, 6) IN IF r = 0 THEN 0 ELSE IF r <= 3 THEN 1 ELSE 2
+
+Step == /\ here # goal /\ left > 0 /\ Kind = "s"
         /\ \E u \in OptG(ES, CUR, DG, goal)[here] :
              /\ here' = u
              /\ i' = i + 1 /\ left' = left - 1
-             /\ UNCHANGED <<idx, wes, wbase, lvl, goal, round>>
-             /\ Emit => PrintT(ToJson([k |-> "t", idx |-> idx, act |-> "step", ch |-> {},
+             /\ UNCHANGED <<idx, wes, wbase, lvl, goal, round, mleft>>
+             /\ Emit => PrintT(ToJson([k |-> "t", idx |-> idx, act |-> "step", j |-> 1, ch |-> {},
                            s |-> StateRec(lvl, here, goal, i), t |-> StateRec(lvl, u, goal, i + 1)]))
+
+\* MoveTo(n) for a node n that lies JAhead optimal edges ahead: the robot stands at n afterwards
+MoveTo == /\ here # goal /\ left > 0 /\ Kind = "m"
+          /\ \E u \in Ahead(OptG(ES, CUR, DG, goal), here, JAhead) :
+               /\ here' = u
+               /\ i' = i + 1 /\ left' = left - 1
+               /\ mleft' = IF mleft > 0 THEN mleft - 1 ELSE 0
+               /\ UNCHANGED <<idx, wes, wbase, lvl, goal, round>>
+               /\ Emit => PrintT(ToJson([k |-> "t", idx |-> idx, act |-> "move", j |-> JAhead, ch |-> {},
+                             s |-> StateRec(lvl, here, goal, i), t |-> StateRec(lvl, u, goal, i + 1)]))
 
 \* a refused Step at the goal ends the behaviour
 UpdateWorld ==
@@ -210,21 +254,23 @@ UpdateWorld ==
        IN /\ lvl' = l2
           /\ round' = round + 1 /\ i' = i + 1
           /\ left' = StepsBefore(idx, round + 1)
+          /\ mleft' = MoveTos(idx, round + 1, left')
           /\ UNCHANGED <<idx, wes, wbase, here, goal>>
-          /\ Emit => PrintT(ToJson([k |-> "t", idx |-> idx, act |-> "update", ch |-> ChangeRec(ES, BASE, l2, S),
+          /\ Emit => PrintT(ToJson([k |-> "t", idx |-> idx, act |-> "update", j |-> 0, ch |-> ChangeRec(ES, BASE, l2, S),
                         s |-> StateRec(lvl, here, goal, i), t |-> StateRec(l2, here, goal, i + 1),
                         tab |-> Tables(ES, Cost(BASE, l2), goal)]))
 
 \* after the last round the robot walks to the goal
 Finish == /\ here # goal /\ left = 0 /\ round = Rounds
-          /\ left' = NN /\ UNCHANGED <<idx, wes, wbase, lvl, here, goal, i, round>>
+          /\ left' = NN /\ mleft' = MoveTos(idx, Rounds + 1, 3)
+          /\ UNCHANGED <<idx, wes, wbase, lvl, here, goal, i, round>>
 
 InitTables == /\ idx \in {k \in 1 .. NSamples : StronglyConnected(k)}
               /\ wes = ESof(idx) /\ wbase = BaseOf(idx)
-              /\ lvl = Lvl0Of(idx) /\ here = 1 /\ goal = 1 /\ i = 0 /\ round = 0 /\ left = 0
+              /\ lvl = Lvl0Of(idx) /\ here = 1 /\ goal = 1 /\ i = 0 /\ round = 0 /\ left = 0 /\ mleft = 0
 
 Init == IF Mode = "tables" THEN InitTables ELSE InitMachine
-Next == IF Mode = "tables" THEN UNCHANGED vars ELSE (Step \/ UpdateWorld \/ Finish)
+Next == IF Mode = "tables" THEN UNCHANGED vars ELSE (Step \/ MoveTo \/ UpdateWorld \/ Finish)
 Spec == Init /\ [][Next]_vars
 
 (******************************** theorems *********************************)
@@ -235,6 +281,12 @@ HeuristicOK == (i = 0) => HeuristicOKFor(ES, BASE, HTable(ES, BASE))
 OptProgress == IF Mode = "tables" THEN OptProgressFor(ES, CUR, D)
                ELSE LET o == OptG(ES, CUR, DG, goal)
                     IN \A v \in 1 .. NN : v # goal => o[v] # {} /\ \A u \in o[v] : DG[u] < DG[v]
+\* a node j optimal edges ahead lies on a shortest path: the distance to the goal drops by exactly the
+\* weight walked, so a MoveTo along the plan never leaves the set of nodes from which following optimal
+\* edges reaches the goal with the true weight (machine role; zero-weight families: distance never grows)
+AheadOK == Mode = "machine" =>
+    LET o == OptG(ES, CUR, DG, goal)
+    IN \A j \in 0 .. 2 : \A u \in Ahead(o, here, j) : DG[u] <= DG[here] /\ (u = goal \/ o[u] # {})
 \* (tables role) the same for every single and double change of the world
 ChangeSets == LET m == Len(ES) IN {{a} : a \in 1 .. m} \cup {{a, b} : a, b \in 1 .. m}
 AllChangesOK == Mode = "tables" =>
